@@ -1028,6 +1028,11 @@ func (g *Gen) run() {
 			if cl.Kind == "ensures" && retSuffixRe.MatchString(cl.Label) && !g.usedAxioms["rethit:"+cl.Label] {
 				g.errorf("%s: clause [%s] names a return that does not exist or is unreachable (returns are numbered in source order; %d returns)", g.fnLabel(), cl.Label, len(g.retOrdinal))
 			}
+			// likewise a call-site clause whose call does not occur in this function (calls made
+			// inside a function literal belong to that literal, `Outer$k`, not to Outer)
+			if (cl.Kind == "assert" || cl.Kind == "mark") && cl.Call != "*" && !g.usedAxioms[fmtf("clausehit:%p", cl)] {
+				g.errorf("%s: clause `at call %s` [%s] matches no call in this function", g.fnLabel(), cl.Call, cl.Label)
+			}
 		}
 	}
 }
